@@ -219,8 +219,19 @@ pub fn trace(
                 let instrumented_block =
                     gen_block(&func_name, &async_expr.block, true, false, &args);
                 let async_attrs = &async_expr.attrs;
+                // Only the `Box::pin(async move { .. })` expression is rewritten; the statements
+                // around it belong to the function body and are kept as they are.
+                let stmts = input.block.stmts.iter().map(|stmt| {
+                    if std::ptr::eq(stmt, internal_fun.source_stmt) {
+                        quote::quote! {
+                            Box::pin(#(#async_attrs) * #instrumented_block)
+                        }
+                    } else {
+                        quote::quote!(#stmt)
+                    }
+                });
                 quote::quote! {
-                    Box::pin(#(#async_attrs) * #instrumented_block)
+                    #(#stmts)*
                 }
             }
         }
@@ -397,7 +408,7 @@ enum AsyncTraitKind<'a> {
 
 struct AsyncTraitInfo<'a> {
     // statement that must be patched
-    _source_stmt: &'a Stmt,
+    source_stmt: &'a Stmt,
     kind: AsyncTraitKind<'a>,
 }
 
@@ -475,7 +486,7 @@ fn get_async_trait_info(block: &Block, block_is_async: bool) -> Option<AsyncTrai
         async_expr.capture?;
 
         return Some(AsyncTraitInfo {
-            _source_stmt: last_expr_stmt,
+            source_stmt: last_expr_stmt,
             kind: AsyncTraitKind::Async(async_expr),
         });
     }
@@ -499,7 +510,7 @@ fn get_async_trait_info(block: &Block, block_is_async: bool) -> Option<AsyncTrai
         .find(|(_, fun)| fun.sig.ident == func_name)?;
 
     Some(AsyncTraitInfo {
-        _source_stmt: stmt_func_declaration,
+        source_stmt: stmt_func_declaration,
         kind: AsyncTraitKind::Function,
     })
 }
